@@ -1,6 +1,7 @@
 package main
 
 import (
+	"fmt"
 	"io/ioutil"
 	"os"
 	"path/filepath"
@@ -161,7 +162,7 @@ func dumpColumn(c *compiler.Column) interface{} {
 
 // compile: {"engine":…, "schema": text, "queries": text, "positional": bool, "want_ast": bool}
 //   -> {"ok": true, "queries":[…]} | {"ok": false, "stage": "schema"|"queries", "errs":[{line,col,msg}]}
-func opCompile(j Job) Res {
+func opCompile(j Job) (out Res) {
 	dir, err := ioutil.TempDir("", "verifq")
 	if err != nil {
 		return Res{"harness_error": err.Error()}
@@ -186,6 +187,14 @@ func opCompile(j Job) Res {
 			res["ast_err"] = perr.Error()
 		}
 	}
+	defer func() {
+		// a Go panic inside the compiler is an outcome of its own (the AST and catalog dumps are kept)
+		if e := recover(); e != nil {
+			res["panic"] = fmt.Sprint(e)
+			delete(res, "ok")
+			out = res
+		}
+	}()
 	c := compiler.NewCompiler(conf, config.CombinedSettings{})
 	fail := func(stage string, err error) Res {
 		errs := []interface{}{}
